@@ -27,6 +27,7 @@ ID = 'C02'
 TRANSLATORS = []
 MODEL_TARGETS = ['theories/Model/Models.vo', 'theories/Model/Container.vo', 'theories/Model/Analysis.vo']
 PROP_TARGET = 'theories/Props/C02.vo'
+EXTRA_PROPS = ['C02EndToEnd']   # composition theorems (run o batching o statistic), audited with C02
 EXHAUSTIVE = False
 TRUSTED_BASE = [
     'Coq 8.16.1 kernel incl. vm_compute (no native_compute)',
